@@ -41,3 +41,6 @@ def run(ctx):
     lib_module.owned_arrays(ctx, P)          # Variant.genotypes is a read-only view of the decoder's buffer
     lib_py.facade_names(ctx, py, P, classes=(("genotypes", "Variant"),), floor=5)
     lib_mem.c_lints(ctx, ctx.program(), scopes.lib_scope("C03"))
+    from . import lib_kind5
+    lib_kind5.variant_samples_pair(ctx, ctx.program())
+    lib_kind5.memset_args(ctx, ctx.program())
